@@ -41,10 +41,13 @@ class Contract:
         out = []
         for r in self.requires or ['1']:
             out.append('__CPROVER_requires(%s)' % r)
-        for e in self.ensures or ['1']:
-            out.append('__CPROVER_ensures(%s)' % e)
         if canary:
+            # vacuity canary: same requires, postcondition 'false' only -- must be refuted, i.e. some path reaches the
+            # function's return under the stated precondition (the real, possibly expensive, postcondition is not re-proved)
             out.append('__CPROVER_ensures(0)')
+        else:
+            for e in self.ensures or ['1']:
+                out.append('__CPROVER_ensures(%s)' % e)
         out.append('__CPROVER_assigns(%s)' % ', '.join(self.assigns))
         return '\n'.join(out)
 
